@@ -35,6 +35,11 @@ func (e *Engine) trustedCall(callee *ssa.Function, args []Val, st *State, reach 
 			return IntV{"(str.indexof " + s.T + " (str.from_code " + termOf(args[1]) + ") 0)"}, true
 		}
 	}
+	if pkg == "bytes" && callee.Name() == "Equal" && !e.bv() && len(args) == 2 {
+		if v, ok := e.bytesEqual(st, args[0], args[1]); ok {
+			return v, true
+		}
+	}
 	switch pkg {
 	case "net":
 		if v, ok := e.trustedNet(callee, args, st); ok {
